@@ -39,6 +39,9 @@ type Case struct {
 	// Abandon: before the bursts, this many callers give up (context cancelled) while their connection is still being
 	// dialled; the dials then complete, leaving connections in the pool that never carried a query
 	Abandon int `json:"abandon,omitempty"`
+	// GateDials: the dials of a burst are held until its queries have queued up (several queries then share one
+	// dialing connection on a pipelined transport), and released together
+	GateDials bool `json:"gate_dials,omitempty"`
 }
 
 func genCase(t *rapid.T) Case {
@@ -67,6 +70,7 @@ func genCase(t *rapid.T) Case {
 		kind := rapid.SampledFrom([]string{"healthy", "healthy", "close_after_reply", "stale_after", "stale_after", "reset_after", "close_inflight", "vanish_after"}).Draw(t, "kind")
 		c.Conns = append(c.Conns, Beh{Kind: kind, K: rapid.IntRange(1, 3).Draw(t, "k")})
 	}
+	c.GateDials = rapid.IntRange(0, 3).Draw(t, "gateDials") == 2
 	if rapid.IntRange(0, 3).Draw(t, "abandon") == 1 {
 		c.Abandon = rapid.IntRange(1, 3).Draw(t, "nabandon")
 		// the abandoned connections are the first ones dialled: some of them die on the first query they ever see
@@ -262,6 +266,11 @@ func runCase(c Case, ctx *hx.Ctx) *hx.Failure {
 		}
 		calls := make([]*call, n)
 		var wg sync.WaitGroup
+		var burstGate chan struct{}
+		if c.GateDials {
+			burstGate = make(chan struct{})
+			env.SetDialGate(burstGate)
+		}
 		for i := range calls {
 			serial++
 			cl := &call{name: fmt.Sprintf("s%d.c08.test.", serial), id: uint16(serial * 3)}
@@ -276,6 +285,12 @@ func runCase(c Case, ctx *hx.Ctx) *hx.Failure {
 				defer cancel()
 				cl.resp, cl.err = eng.Exchange(cx, peer.Query(cl.id, cl.name, 16))
 			}()
+		}
+		if burstGate != nil {
+			// let the burst queue up behind the held dial(s), then let every dial finish
+			time.Sleep(time.Millisecond)
+			env.SetDialGate(nil)
+			close(burstGate)
 		}
 		returned := make(chan struct{})
 		go func() { wg.Wait(); close(returned) }()
@@ -305,6 +320,7 @@ func runCase(c Case, ctx *hx.Ctx) *hx.Failure {
 		mu.Lock()
 		df := dialFails
 		mu.Unlock()
+		excusedByDialOnly := 0
 		for _, cl := range calls {
 			cl.dialFailsAfter = df
 			// attempts: sightings on the wire + writes that were made to fail
@@ -374,6 +390,9 @@ func runCase(c Case, ctx *hx.Ctx) *hx.Failure {
 					}
 				}
 			}
+			if dialErr && !freshFailed && attempts == 0 {
+				excusedByDialOnly++ // never reached the wire: only a failed dial can explain this failure
+			}
 			switch {
 			case freshFailed, dialErr:
 				failedFreshOrDial++
@@ -382,8 +401,17 @@ func runCase(c Case, ctx *hx.Ctx) *hx.Failure {
 				return hx.Failf("C08/reused-connection-failure-not-retried", "engine=%s datagram=%v: query %s failed with %q after %d attempt(s), all on connections that existed (in use or pooled) before the query was issued (sightings %v); a fresh connection to the server works, so it must have been retried", c.Engine, c.Datagram, cl.name, cl.err, attempts, connsOf(seen))
 			}
 		}
+		// Every dial is started for exactly one query; queries that merely queued on a connection another query was
+		// dialling are retried when that dial fails. With fewer than 3 failed dials nobody can have used up its
+		// attempts on dials alone, so at most one query per failed dial may report the dial failure.
+		if dfBurst := df - calls[0].dialFailsBefore; excusedByDialOnly > dfBurst && dfBurst < 3 {
+			return hx.Failf("C08/joined-dialing-connection-failure-not-retried", "engine=%s datagram=%v: %d dial(s) failed during a burst of %d queries, but %d queries that never reached the wire reported failure: a query queued on a connection that was being dialled for another query must be retried when that dial fails", c.Engine, c.Datagram, dfBurst, n, excusedByDialOnly)
+		}
 	}
 	ctx.Classf("engine=%s", c.Engine)
+	if c.GateDials {
+		ctx.Class("dials-gated")
+	}
 	if retried > 0 {
 		ctx.Class("had-retry")
 		ctx.Nontrivial(fmt.Sprintf("%v", c))
